@@ -2159,3 +2159,82 @@ def replay_selection_end_to_end(model, obligation, version=None):
             if probs:
                 return dict(confirmed=True, call='automatic mask selection on real symbols', detail=probs[0])
     return dict(confirmed=False, detail='the automatically chosen mask is the ISO choice on the tried symbols')
+
+
+def replay_encode_level(model, obligation, level, micro, version, boost):
+    """native: encode() with this level / version / micro / boost flag on several contents; the level found in the symbol (format information, read by the
+    reference decoder) is never below the request, is exactly the request without boosting, H is refused for Micro QR, a level is refused for M1"""
+    from . import qrdecode
+    order = {None: -1, 'L': 0, 'M': 1, 'Q': 2, 'H': 3}
+    lv = None if level is None else level.upper()
+    for content in ('1', '12', '1234567', 'AB', 'HELLO WORLD', 'hello', 'x' * 40, '9' * 60):
+        call = 'encoder.encode(%r, error=%r, version=%r, micro=%r, boost_error=%r)' % (content, level, version, micro, boost)
+        try:
+            code = encoder.encode(content, error=level, version=version, micro=micro, boost_error=boost)
+        except ValueError:
+            continue
+        except Exception as ex:
+            return dict(confirmed=True, call=call, detail='raised %r' % (ex,))
+        d = qrdecode.decode(code.matrix)
+        is_micro = code.version < 1
+        if d.problems:
+            return dict(confirmed=True, call=call, detail='symbol problems %r' % (d.problems[:2],))
+        got = d.level
+        if lv == 'H' and is_micro:
+            return dict(confirmed=True, call=call, detail='level H requested, a Micro QR symbol (%s) was returned' % d.version_name)
+        if lv is not None and code.version == iso.M1:
+            return dict(confirmed=True, call=call, detail='level %s requested, an M1 symbol (no error correction) was returned' % lv)
+        if lv is not None and order.get(got, -1) < order[lv]:
+            return dict(confirmed=True, call=call, detail='level %s requested, the symbol has level %r' % (lv, got))
+        if not boost and code.version != iso.M1 and got != (lv or 'L'):
+            return dict(confirmed=True, call=call, detail='boosting disabled, level %s requested (default L), the symbol has level %r' % (lv, got))
+    return dict(confirmed=False, detail='levels as specified for the tried contents')
+
+
+def replay_symbol_battery(model, obligation, prop=None):
+    """fallback replay for obligations about the encoder that have no replay of their own: ~70 real symbols (all kinds of content, versions M1..40, levels,
+    masks, eci, boosting on / off) are read back by the reference decoder: no structural problem, payload == content, reported metadata == decoded metadata,
+    requested version / level / mask honoured"""
+    from . import qrdecode
+    cases = []
+    for c in ('1', '12345678', '0123456789' * 4, 'A', 'HELLO WORLD', 'AC-42 $%*+-./:', 'a', 'hello, world', '\xe4\xf6\xfc', '点', '€ uro', b'\x00\xff\x80', 0, 1234567890123,
+              ['AB', '12', 'ab'], [('12', None), ('AB', None)], 'x' * 100, '9' * 300, 'Z' * 200):
+        cases.append((c, {}))
+    for v in ('M1', 'M2', 'M3', 'M4', 1, 2, 6, 7, 9, 10, 13, 26, 27, 34, 40):
+        cases.append(('1234' if v == 'M1' else 'AB12', dict(version=v)))
+        if v not in ('M1',):
+            cases.append(('AB12', dict(version=v, error='m', boost_error=False, mask=1)))
+    for lv in 'LMQH':
+        cases.append(('level test %s' % lv, dict(error=lv, micro=False, boost_error=False)))
+    for mk in range(8):
+        cases.append(('mask test', dict(mask=mk, micro=False)))
+    for mk in range(4):
+        cases.append(('12345', dict(mask=mk, version='M2')))
+    cases += [('\xe4\xf6\xfc', dict(eci=True, encoding='utf-8')), ('\xe4\xf6\xfc', dict(eci=True)), ('汉字', dict(mode='hanzi')), ('点', dict(mode='kanji')),
+              ('12', dict(mode='byte')), ('AB', dict(micro=True)), ('hello', dict(micro=True))]
+    tried = 0
+    for c, kw in cases:
+        call = 'segno.make(%r, **%r)' % (c if len(repr(c)) < 50 else repr(c)[:50], kw)
+        try:
+            q = segno.make(c, **kw)
+        except ValueError:
+            continue
+        except Exception as ex:
+            return dict(confirmed=True, call=call, detail='raised %r' % (ex,))
+        tried += 1
+        d = qrdecode.decode(q.matrix)
+        want = qrdecode.expected_payload(c, mode=kw.get('mode'), encoding=kw.get('encoding'))
+        probs = list(d.problems)
+        if d.payload != want:
+            probs.append('payload %r, content %r' % (d.payload[:40], want[:40]))
+        if str(d.version_name) != str(q.version) or (d.level or None) != (q.error or None) or d.mask != q.mask:
+            probs.append('symbol holds %s-%s mask %s, object reports %s mask %s' % (d.version_name, d.level, d.mask, q.designator, q.mask))
+        if 'version' in kw and str(kw['version']) != str(q.version):
+            probs.append('version %r requested, %s returned' % (kw['version'], q.version))
+        if 'mask' in kw and q.mask != kw['mask']:
+            probs.append('mask %r requested, %r used' % (kw['mask'], q.mask))
+        if kw.get('boost_error') is False and 'error' in kw and q.error != kw['error'].upper():
+            probs.append('level %r requested without boosting, %r used' % (kw['error'], q.error))
+        if probs:
+            return dict(confirmed=True, call=call, detail='; '.join(str(p) for p in probs[:3]))
+    return dict(confirmed=False, detail='%d real symbols read back without a problem' % tried)
